@@ -334,7 +334,11 @@ pub fn judge_c05(cx: &DeliveryCtx, out: &mut RunOut) {
                     out.probe(&format!("req[{}]", s.kind));
                 }
             }
-            if reached {
+            // (also when the library stopped earlier, provided the missing requirement is the
+            // request's only fault — clean provenance, the message as issued is accepted: then no
+            // earlier check has anything to refuse, and the refusal due is the 403 of this property)
+            let only_fault = matches!(cx.provenance, Expect::Refuse(Some(Rule::Requirement)));
+            if reached || only_fault {
                 let ok = match cx.out.err() {
                     Some(e) => e.kind == "SignatureDoesNotMatch" && e.status == 403 && is_class(cx, Rule::Requirement) != Some(false),
                     None => false,
@@ -663,6 +667,15 @@ pub fn judge_c14(cx: &DeliveryCtx, out: &mut RunOut) {
             }
         }
     }
+    // The same from the request's side: a request whose only fault is one defect that a check
+    // before key lookup must refuse (clean provenance, and the message as issued is accepted) never
+    // reaches the provider — whatever the library makes of it in the end.
+    if let Expect::Refuse(Some(r)) = cx.provenance {
+        let early = r.precedence().map(|p| p < prov_pos).unwrap_or(false);
+        if early && matches!(cx.expected, Verdict::Refuse(r2) if r2 == r) && !cx.body_failed && touched && baseline_ok(cx, out) {
+            out.violate("C14", "provider-untouched-by-defective-requests", format!("the request's only fault is a defect at {} (a check that comes before key lookup), yet the provider was consulted ({} calls) and the library says {}; {}", r.name(), calls, cx.out.short(), ctx_line(cx)));
+        }
+    }
     if !finished(cx) {
         return;
     }
@@ -713,10 +726,11 @@ pub fn judge_c14(cx: &DeliveryCtx, out: &mut RunOut) {
                         "SignatureError::Internal" => e.kind == "InternalServiceError",
                         _ => e.kind == "InternalServiceError",
                     };
-                    let want_text = if libi::FOREIGN_KINDS[*k] == "KeyTooLongError" {
-                        "Key too long".to_string()
-                    } else {
-                        msg.clone()
+                    let want_text = match libi::FOREIGN_KINDS[*k] {
+                        "KeyTooLongError" | "lib:secret-too-long" => "Key too long".to_string(),
+                        // (the builder's own wording)
+                        "lib:builder-without-key" => e.display.clone(),
+                        _ => msg.clone(),
                     };
                     if !ok || e.status != 500 || e.display != want_text {
                         out.violate("C14", "foreign-error-becomes-internal-500", format!("provider failed with {} {:?}, caller got {}; {}", libi::FOREIGN_KINDS[*k], msg, cx.out.short(), ctx_line(cx)));
@@ -730,6 +744,18 @@ pub fn judge_c14(cx: &DeliveryCtx, out: &mut RunOut) {
             match cx.out.err() {
                 Some(e) if (e.kind == "InvalidClientTokenId" || e.kind == "ExpiredToken") && e.display.starts_with(libi::PROVIDER_MSG_PREFIX) => out.probe("prov_keystore_refusal"),
                 _ => out.violate("C14", "signature-error-passes-through-unchanged", format!("key store refused, caller got {}; {}", cx.out.short(), ctx_line(cx))),
+            }
+        }
+    }
+    // A key store that could not produce a key relies on the library's own builder / constructor
+    // failing (`build()?`, `from_str(..)?`): its failure is an internal failure, never anything else
+    if let (None, Answer::Foreign(k)) = (&cx.script.ready_err, &cx.script.answer) {
+        let answered = cx.events.iter().any(|e| matches!(e.kind, EvKind::FutPoll { result: "ok" } | EvKind::FutPoll { result: "err" }));
+        if libi::FOREIGN_KINDS[*k].starts_with("lib:") && answered {
+            out.probe("prov_library_mediated_failure");
+            let ok = matches!(cx.out.err(), Some(e) if e.kind == "InternalServiceError" && e.status == 500);
+            if !ok {
+                out.violate("C14", "foreign-error-becomes-internal-500", format!("the key store had no usable key ({}: it propagates the error of the library's own builder/constructor), caller got {}; {}", libi::FOREIGN_KINDS[*k], cx.out.short(), ctx_line(cx)));
             }
         }
     }
